@@ -39,6 +39,12 @@ type GoBackNConn struct {
 	recvDataChan chan *PacketData
 	sendDataChan chan *PacketData
 
+	// recvPartial holds the chunks of a message that were already taken
+	// off recvDataChan by a Recv call that then timed out before the final
+	// chunk arrived. The next Recv call continues from them.
+	recvPartial    []byte
+	recvPartialMtx sync.Mutex
+
 	log btclog.Logger
 
 	// receivedACKSignal channel is used to signal that the queue size has
@@ -214,11 +220,24 @@ func (g *GoBackNConn) Recv() ([]byte, error) {
 	ticker := time.NewTimer(g.timeoutManager.GetRecvTimeout())
 	defer ticker.Stop()
 
+	// Continue with the chunks collected by an earlier call that timed out
+	// in the middle of a message.
+	g.recvPartialMtx.Lock()
+	b = g.recvPartial
+	g.recvPartial = nil
+	g.recvPartialMtx.Unlock()
+
 	for {
 		select {
 		case <-g.quit:
 			return nil, fmt.Errorf("cannot receive, gbn exited")
 		case <-ticker.C:
+			// Keep what we have collected so far so that the
+			// message is not truncated for the next caller.
+			g.recvPartialMtx.Lock()
+			g.recvPartial = b
+			g.recvPartialMtx.Unlock()
+
 			return nil, errRecvTimeout
 		case msg = <-g.recvDataChan:
 		}
